@@ -4,12 +4,41 @@
        |a - b| <= 1e-9 * max(scale, |a|, |b|)
    where [scale] is 0 (purely relative) for quantities the implementation computes without
    cancellation and the natural magnitude of the intermediate otherwise; roots are compared squared. *)
-From Coq Require Import ZArith QArith Qabs Qminmax Qround List Bool.
+From Coq Require Import ZArith QArith Qabs Qminmax Qround List Bool PrimFloat FloatOps SpecFloat.
 From V Require Import Model.CasesLib Model.Metrics.
 Import ListNotations.
 Open Scope Q_scope.
 
 Inductive obsv := ONum (q : Q) | ONone | ONaN | OInf (neg : bool) | ORaise.
+
+(* observations are written as binary64 literals (exact, and parsed natively); a finite binary64 value is
+   the dyadic rational (-1)^s * m * 2^e *)
+Definition q_of_sf (s : bool) (m : positive) (e : Z) : Q :=
+  let z := if s then Zneg m else Zpos m in
+  match e with
+  | Z0 => inject_Z z
+  | Zpos p => inject_Z (z * Z.pow_pos 2 p)
+  | Zneg p => Qmake z (Pos.pow 2 p)
+  end.
+Definition obsv_of_float (f : float) : obsv :=
+  match Prim2SF f with
+  | S754_zero _ => ONum 0
+  | S754_infinity s => OInf s
+  | S754_nan => ONaN
+  | S754_finite s m e => ONum (q_of_sf s m e)
+  end.
+Definition q_of_float (f : float) : Q := match obsv_of_float f with ONum q => q | _ => 0 end.
+Inductive xobs := XF (f : float) | XNone | XRaise.
+Definition to_obsv (x : xobs) : obsv := match x with XF f => obsv_of_float f | XNone => ONone | XRaise => ORaise end.
+(* binary64 cells over one common power-of-two denominator (so that sums only add numerators) *)
+Definition sf_exp (f : float) : Z := match Prim2SF f with S754_finite _ _ e => e | _ => 0%Z end.
+Definition min_exp (l : list float) : Z := fold_right (fun f acc => Z.min (sf_exp f) acc) 0%Z l.
+Definition cell_of_float (emin : Z) (f : float) : cell :=
+  match Prim2SF f with
+  | S754_zero _ => Some (Qmake 0 (Z.to_pos (2 ^ (- emin))))
+  | S754_finite s m e => let z := (Zpos m * 2 ^ (e - emin))%Z in Some (Qmake (if s then (- z)%Z else z) (Z.to_pos (2 ^ (- emin))))
+  | _ => None
+  end.
 
 Definition tol : Q := 1 # 1000000000.
 Definition close (scale a b : Q) : bool :=
@@ -25,6 +54,15 @@ Definition val_match (scale : Q) (v : val) (o : obsv) : bool :=
   | _, _ => false
   end.
 Definition num_match (scale : Q) (q : Q) (o : obsv) : bool := val_match scale (Num q) o.
+(* r_squared_adj over a zero denominator: (1 - R^2)(n - 1) / 0 is NaN for R^2 = 1 exactly and +-inf for a
+   binary64 R^2 one ulp away from 1; both are accepted when R^2 is 1 within the tolerance *)
+Definition rsq_adj_match (scale : Q) (r2 : option Q) (v : val) (o : obsv) : bool :=
+  val_match scale v o ||
+  match v, o, r2 with
+  | NaN, OInf _, Some r => close 1 r 1
+  | Inf _, ONaN, Some r => close 1 r 1
+  | _, _, _ => false
+  end.
 Definition int_match (z : Z) (o : obsv) : bool :=
   match o with ONum f => Qeq_bool (inject_Z z) f | _ => false end.
 
@@ -82,9 +120,9 @@ Record bcase := {
   bc_den : positive;
   bc_rows : list (option Z * option Z);
   bc_p : Z;
-  bc_mn : Q;
-  bc_k : Q;                 (* MAD_k as the implementation holds it *)
-  bc_exp : list obsv        (* BaselineMetrics.model_dump(), flattened in field order *)
+  bc_mn : float;
+  bc_k : float;             (* MAD_k as the implementation holds it *)
+  bc_exp : list xobs        (* BaselineMetrics.model_dump(), flattened in field order *)
 }.
 
 Definition baseline_checks (m : bmetrics) (d : list (Q * Q)) (p : Z) (mn k : Q) (npo : obsv) : list (obsv -> bool) :=
@@ -101,91 +139,108 @@ Definition baseline_checks (m : bmetrics) (d : list (Q * Q)) (p : Z) (mn k : Q) 
        val_match 0 (b_cvrmse m); val_match 0 (b_cvrmse_adj m); val_match 0 (cvrmse_autocorr_adj m np p mn);
        val_match 0 (b_pnrmse m); val_match 0 (b_pnrmse_adj m); val_match 0 (pnrmse_autocorr_adj m np p mn);
        val_match 1 (b_r_squared m);
-       val_match (Qmax 1 (inject_Z (n - 1) / inject_Z (b_ddof m - 1))) (b_r_squared_adj m);
+       rsq_adj_match (Qmax 1 (inject_Z (n - 1) / inject_Z (b_ddof m - 1))) (b_r2 m) (b_r_squared_adj m);
        val_match 0 (mape_trunc d mn) ].
 
 Definition baseline_fields (c : bcase) : list bool :=
   let rows := mk_rows (bc_den c) (bc_rows c) in
+  let e := map to_obsv (bc_exp c) in
+  let mn := q_of_float (bc_mn c) in
   match finite_pairs rows with
-  | [] => match bc_exp c with ONum f :: _ => [Qeq_bool f 0] | _ => [false] end
-  | d => let m := baseline d (bc_p c) (bc_mn c) in
-         zipcheck (baseline_checks m d (bc_p c) (bc_mn c) (bc_k c) (nth 1 (bc_exp c) ONone)) (bc_exp c)
+  | [] => match e with ONum f :: _ => [Qeq_bool f 0] | _ => [false] end
+  | d => let m := baseline d (bc_p c) mn in
+         zipcheck (baseline_checks m d (bc_p c) mn (q_of_float (bc_k c)) (nth 1 e ONone)) e
   end.
 Definition check_baseline (c : bcase) : bool := forallb (fun b => b) (baseline_fields c).
 (* diagnostics: indices of the fields that do not match *)
 Definition baseline_bad (c : bcase) : list N := mismatches (baseline_fields c).
 
 (* _safe_divide called directly with Python / numpy scalars *)
-Inductive sdobs := SDNone | SDNum (q : Q) | SDRaise | SDInf (neg : bool) | SDNaN.
-Definition check_safe_divide (c : Q * Q * Q * sdobs) : bool :=
+Definition check_safe_divide (c : float * float * float * xobs) : bool :=
   let '(num, den, mn, o) := c in
-  match safe_divide num den mn, o with
-  | RNone, SDNone => true
-  | RNum q, SDNum f => close 0 q f
-  | RDivZero _, SDRaise => true
-  | RDivZero s, SDInf neg => if neg then (s <? 0)%Z else (0 <? s)%Z
-  | RDivZero s, SDNaN => (s =? 0)%Z
+  match safe_divide (q_of_float num) (q_of_float den) (q_of_float mn), to_obsv o with
+  | RNone, ONone => true
+  | RNum q, ONum f => close 0 q f
+  | RDivZero _, ORaise => true
+  | RDivZero s, OInf neg => if neg then (s <? 0)%Z else (0 <? s)%Z
+  | RDivZero s, ONaN => (s =? 0)%Z
   | _, _ => false
   end.
 
 (* hourly gate: BaselineMetrics of the rows put on an HourlyModel, thresholds, observed verdict *)
 Record gcase := {
-  gc_den : positive; gc_rows : list (option Z * option Z * bool); gc_p : Z; gc_mn : Q;
-  gc_tcv : Q; gc_tpn : Q; gc_acceptable : bool
+  gc_den : positive; gc_rows : list (option Z * option Z * bool); gc_p : Z; gc_mn : float;
+  gc_tcv : float; gc_tpn : float; gc_acceptable : bool
 }.
 Definition mk_hrows (den : positive) (l : list (option Z * option Z * bool)) : list hrow :=
   map (fun r => (mk_cell den (fst (fst r)), mk_cell den (snd (fst r)), snd r)) l.
 Definition check_gate (c : gcase) : bool :=
-  match hourly_baseline_metrics (mk_hrows (gc_den c) (gc_rows c)) (gc_p c) (gc_mn c) with
+  match hourly_baseline_metrics (mk_hrows (gc_den c) (gc_rows c)) (gc_p c) (q_of_float (gc_mn c)) with
   | None => false
-  | Some m => Bool.eqb (negb (hourly_disqualified m (gc_tcv c) (gc_tpn c))) (gc_acceptable c)
+  | Some m => Bool.eqb (negb (hourly_disqualified m (q_of_float (gc_tcv c)) (q_of_float (gc_tpn c)))) (gc_acceptable c)
   end.
 
 (* hourly fit: the stored baseline_metrics are those of the measured rows of predict(baseline) *)
 Record hcase := {
-  hc_den : positive; hc_rows : list (option Z * option Z * bool); hc_p : Z; hc_mn : Q; hc_k : Q;
-  hc_exp : list obsv
+  hc_den : positive; hc_rows : list (option Z * option Z * bool);
+  hc_frows : list (float * float * bool);      (* used instead of hc_rows when not empty (real fits: binary64 cells) *)
+  hc_p : Z; hc_mn : float; hc_k : float;
+  hc_exp : list xobs
 }.
+Definition hc_hrows (c : hcase) : list hrow :=
+  match hc_frows c with
+  | [] => mk_hrows (hc_den c) (hc_rows c)
+  | fr => let emin := Z.min (min_exp (map (fun r => fst (fst r)) fr)) (min_exp (map (fun r => snd (fst r)) fr)) in
+          map (fun r => (cell_of_float emin (fst (fst r)), cell_of_float emin (snd (fst r)), snd r)) fr
+  end.
 Definition hourly_fields (c : hcase) : list bool :=
-  match finite_pairs (measured_rows (mk_hrows (hc_den c) (hc_rows c))) with
+  let e := map to_obsv (hc_exp c) in
+  let mn := q_of_float (hc_mn c) in
+  match finite_pairs (measured_rows (hc_hrows c)) with
   | [] => [false]
-  | d => let m := baseline d (hc_p c) (hc_mn c) in
-         zipcheck (baseline_checks m d (hc_p c) (hc_mn c) (hc_k c) (nth 1 (hc_exp c) ONone)) (hc_exp c)
+  | d => let m := baseline d (hc_p c) mn in
+         zipcheck (baseline_checks m d (hc_p c) mn (q_of_float (hc_k c)) (nth 1 e ONone)) e
   end.
 Definition check_hourly (c : hcase) : bool := forallb (fun b => b) (hourly_fields c).
 Definition hourly_bad (c : hcase) : list N := mismatches (hourly_fields c).
 
 (* daily: _get_error_metrics (RMSE, MAE, CVRMSE, PNRMSE) and the gate *)
 Record dcase := {
-  dc_den : positive; dc_resid : list Z; dc_obs : list Z; dc_thr : Q;
-  dc_exp : list obsv; dc_dq : bool
+  dc_den : positive; dc_resid : list Z; dc_obs : list Z;
+  dc_fresid : list float; dc_fobs : list float;     (* used instead when not empty (real fits) *)
+  dc_thr : float;
+  dc_exp : list xobs; dc_dq : bool
 }.
+Definition qlist_of_floats (l : list float) : list Q :=
+  let emin := min_exp l in map (fun f => match cell_of_float emin f with Some q => q | None => 0 end) l.
 Definition daily_fields (c : dcase) : list bool :=
-  let resid := mk_list (dc_den c) (dc_resid c) in
-  let obs := mk_list (dc_den c) (dc_obs c) in
+  let resid := match dc_fresid c with [] => mk_list (dc_den c) (dc_resid c) | l => qlist_of_floats l end in
+  let obs := match dc_fobs c with [] => mk_list (dc_den c) (dc_obs c) | l => qlist_of_floats l end in
   let e := daily_error resid obs in
-  zipcheck [ val_match 0 (d_rmse e); num_match 0 (d_mae e); val_match 0 (d_cvrmse e); val_match 0 (d_pnrmse e) ]
-           (dc_exp c)
-  ++ [ Bool.eqb (daily_disqualified e (dc_thr c)) (dc_dq c) ].
+  zipcheck [ val_match 0 (d_rmse e); num_match 0 (d_mae e); val_match 0 (d_cvrmse e); val_match (maxabs obs) (d_pnrmse e) ]
+           (map to_obsv (dc_exp c))
+  ++ [ Bool.eqb (daily_disqualified e (q_of_float (dc_thr c))) (dc_dq c) ].
 Definition check_daily (c : dcase) : bool := forallb (fun b => b) (daily_fields c).
 Definition daily_bad (c : dcase) : list N := mismatches (daily_fields c).
 
 (* ReportingMetrics: n, observed_sum, predicted_sum, savings, total_savings_uncertainty *)
 Record rcase := {
   rc_den : positive; rc_rows : list (option Z * option Z);
-  rc_E_t_factor : Q * Q;       (* t quantile (scipy) and frequency factor, as the implementation holds them *)
-  rc_cv : option (bool * Q);   (* the baseline's cvrmse_autocorr_adj as (negative?, value^2) ; None = not a number *)
-  rc_n : Z; rc_np : Q;         (* baseline n and n' *)
-  rc_exp : list obsv
+  rc_t_factor : float * float; (* t quantile (scipy) and frequency factor, as the implementation holds them *)
+  rc_cv : xobs;                (* the baseline's cvrmse_autocorr_adj *)
+  rc_n : Z; rc_np : xobs;      (* baseline n and n' *)
+  rc_exp : list xobs
 }.
 Definition reporting_fields (c : rcase) : list bool :=
   let r := reporting (mk_rows (rc_den c) (rc_rows c)) in
-  let '(t, f) := rc_E_t_factor c in
-  let cv := match rc_cv c with Some (neg, s) => Root neg s | None => Undef end in
-  let u := savings_uncertainty (r_predicted_sum r) t f cv (rc_n c) (r_n r) (rc_np c) in
+  let '(tf, ff) := rc_t_factor c in
+  let t := q_of_float tf in let f := q_of_float ff in
+  let cv := match to_obsv (rc_cv c) with ONum q => Root (Qltb q 0) (sqr q) | _ => Undef end in
+  let np := match to_obsv (rc_np c) with ONum q => q | _ => 0 end in
+  let u := savings_uncertainty (r_predicted_sum r) t f cv (rc_n c) (r_n r) np in
   zipcheck [ int_match (r_n r); num_match 0 (r_observed_sum r); num_match 0 (r_predicted_sum r);
              num_match (Qmax (Qabs (r_observed_sum r)) (Qabs (r_predicted_sum r))) (r_savings r);
              (fun o => match u with Undef => true | _ => val_match 0 u o end) ]
-           (rc_exp c).
+           (map to_obsv (rc_exp c)).
 Definition check_reporting (c : rcase) : bool := forallb (fun b => b) (reporting_fields c).
 Definition reporting_bad (c : rcase) : list N := mismatches (reporting_fields c).
